@@ -67,3 +67,10 @@ Theorem C16_usable_in_structureless_nested_refuted :
   exists x, fst (leafmatch [] (LPyTree (LPyTree (LArr (AC None "?n")) None) (Some "T")) x (mkps [(empty_memo, [])] None false)) = Raise AnnotationErr.
 Proof. exists (Node KTuple [Leaf (PArr (mkvalue true true "float32" [3]%Z))]). vm_compute. reflexivity. Qed.
 Print Assumptions C16_usable_in_structureless_nested_refuted.
+
+(* outside a structured PyTree no leaf position is set -- also after a check that raised -- because every
+   set_treepath_memo is bracketed by try/finally clear_treepath_memo() in the source (gen/Brackets.v) *)
+From JT Require Import gen.Brackets.
+Theorem C16_leaf_position_is_bracketed_in_the_source : treepath_protected = true.
+Proof. reflexivity. Qed.
+Print Assumptions C16_leaf_position_is_bracketed_in_the_source.
